@@ -6,7 +6,7 @@ SPEC = {
     'theorems': [
         'C05_refuted', 'C05_refuted_fork', 'C05_prune_keeps_live_partial', 'C05_prune_keeps_live_partial_inputs',
         'C05_guard_nonvacuous',
-        'C05_prune_deletes_only_superseded', 'C05_commit_tree_is_C01_set',
+        'C05_prune_deletes_only_superseded', 'C05_commit_tree_is_C01_set', 'C05_prune_implies_prefix',
     ],
     'allowed_axioms': [],
     'shard': 32,
@@ -26,6 +26,18 @@ SPEC = {
             'linear with height gaps and empty heights / forks and re-commits with consecutive heights where every height '
             'saves and every state is new / linear with height jumps across the 500000 and 1500000 thresholds / large '
             '(12 keys, 30 commits); UNRESTRICTED: same-value rewrites, empty heights on forks, exact re-commits, empty values. '
+            'STORE streams (case SCase): the same kind of history run through a store created by mavl.New(cfg, sub, nil) with '
+            'sub = {enableMavlPrefix: false|true, enableMavlPrune: true, pruneHeight 2-10} - the model resolves the configuration '
+            '(effective_cfg: prune forces prefix) - through Store.Set / Store.MemSet+Commit (empty write sets included) / Store.Get; '
+            'background pruning runs awaited, synchronous runs = mavl/db PruningTree on the store database (the store has no call '
+            'for it); restart = database closed and a new store created on it; the ARC node cache the store switches on is purged '
+            'before every commit / pruning run / read round; Store.Close is never called (it sets the package-wide quit flag that '
+            'makes later pruning runs no-ops) and the harness exits 3 when the canary history sees no node record deleted. '
+            '3 fixed histories store-witness-returns (prune on, prefix off/on, pruneHeight 2/3/10: an account goes 100 -> 70 -> 100 '
+            'while a counter changes every block); GUARDED store-returns(-small): linear, every writing commit produces a state '
+            'not seen before (usually a counter key written by every block) while single keys take 2-3 values each - values return '
+            'to earlier values (A -> B -> A) and are rewritten unchanged next to other changes; store-guarded-forks (as guarded-forks); '
+            'UNRESTRICTED store-free-forks. '
             'non-trivial = at least 3 commits, a version with >= 2 keys and at least one pruning run; distinct = distinct case terms',
     'trusted_base': [
         'SHA-256 over the protobuf encoding of LeafNode/InnerNode is idealised as a free term algebra (C01\'s symbolic hash; '
@@ -36,7 +48,10 @@ SPEC = {
         '(an older root hash can be appended to an index entry) - noted, not modelled',
         'hook /repo/system/store/mavl/db/prune_verif.go: VerifResetPruneGlobals (maxBlockHeight, secLvlPruningH, quit, '
         'pruningState back to process-start values), VerifWaitPrune (wg.Wait without quit), VerifPruneConsts',
-        'the MemSet shortcut of the store ("empty write set: keep the parent root, no tree") is transcribed in the harness '
+        'store streams: mavl.New / Store.Set / MemSet / Commit / Get are the real code; the node cache of the store database is '
+        'emptied by the harness (GetCache().Purge()) before each operation, so cached copies of deleted nodes are not observed '
+        '(same abstraction as above); Store.Get cannot tell a root that does not load from absent keys (model: store_get_at_root)',
+        'node database streams: the MemSet shortcut of the store ("empty write set: keep the parent root, no tree") is transcribed in the harness '
         '(mode 1 with an empty write set makes no call); non-empty MemSet+Commit equals SetKVPair',
         'the spec oracle (Spec.v) uses C01\'s finite-map specification (apply_writes / sget) for the abstract states; '
         'live = on the tip\'s chain and within PruneHeight of the greatest height committed so far',
